@@ -57,4 +57,16 @@ PROPS = {
              'cases are distinct by construction); non-trivial = every buffer (each is measured and validated).',
         exhaustive=dict(quick=True, thorough=True),
         assumptions=['exhaustive only inside the stated small scope; mutation stage is random', 'lenient reference decoder refosc.h']),
+    'C05': dict(
+        level_text='Runtime monitoring against a reference matcher written from the manual grammar: exhaustive small scope - 568 path patterns (<=3 items from literals {a,b,ab}, #N with N in {1,2,10,12}, 7 option groups incl. prefix-related and empty alternatives, with/without trailing slash) x every address over the 11-symbol alphabet "abcx0129/:#" up to length 4 (quick) / 6 (thorough) through rtosc_match_path, and for every matching pair x 5 type specs x 9 type strings through rtosc_match (three-valued type oracle: equal must match, neither equal nor extension must not, extension undecided), path_end checked; pattern and message live in exact-size guard-page buffers. Then random larger patterns (<=6 items, inner "/", indices at N-1/N/N+1, leading zeros, up to 9 digits) with derived and mutated addresses under AddressSanitizer, literal(+types) patterns also through a one-port table with and without location buffer.',
+        level_note='Trusts harness/patref.h (reference matcher with backtracking). Wildcards (*, ?, []) and literals starting with a digit directly after #N are outside the documented form and not generated.',
+        technique='reference-model differential monitor; exhaustive small-scope enumeration with guard pages + random differential under AddressSanitizer',
+        stages=[dict(harness='c05', variant='plain', mode='exh', quick=6816, thorough=6816,
+                     need=['pairs.rtosc_match_path', 'pairs.rtosc_match', 'path.ref_matches', 'verdict.must_match', 'verdict.must_not_match_types', 'verdict.types_dont_care']),
+                dict(harness='c05', variant='asan', mode='rand', quick=100000, thorough=3000000,
+                     need=['rand.ref_path_match', 'rand.ref_path_nomatch', 'rand.index_out_of_range', 'table.dispatch_hashed', 'table.dispatch_linear'])],
+        rule='evaluations = (pattern, address[, type spec, type string]) pairs decided. exh case = one base pattern x all addresses with a given first symbol; '
+             'distinct = hash(pattern, address block) for exh and hash(pattern,address,types) for rand; non-trivial = every pair (each is decided by the reference).',
+        exhaustive=dict(quick=True, thorough=True),
+        assumptions=['exhaustive only inside the stated small scope (stage exh); stage rand is sampled', 'reference matcher patref.h']),
 }
